@@ -22,7 +22,7 @@ Proof.
   assert (Hnth : forall j, (j < m)%nat -> nth j (firstn m a) 0 = nth j a 0) by (intros; apply nth_firstn_lt; assumption).
   assert (Hl : length (firstn m a) = m) by (rewrite firstn_length; lia).
   set (l := firstn m a) in *. clearbody l. subst m.
-  rewrite (loop_map1_all (fun x => x) l); try first [assumption | apply repeat_length | reflexivity].
+  rewrite (loop_map1_all_c (fun x => x) l); try first [assumption | apply repeat_length | reflexivity | (intros; zbool_lia)].
   - cbn [bind]. rewrite map_id_Z. reflexivity.
   - intros out j Hj Ho. body_red. rewrite arr_get_nat by lia. cbn [bind].
     rewrite arr_set_nat by lia. cbn [bind]. rewrite Hnth by exact Hj. reflexivity.
